@@ -57,6 +57,8 @@ package absnfs
 //@ ensures [frame] forall(o, mathint, o != valof(r) ==> rpos[o] == old(rpos[o])) && rpos[valof(r)] >= old(rpos[valof(r)])
 //@ ensures [value] isnil(result1) ==> be32(rdata[valof(r)], old(rpos[valof(r)])) == 8 && result0 == be64(rdata[valof(r)], old(rpos[valof(r)]) + 4) && rpos[valof(r)] == old(rpos[valof(r)]) + 12
 //@ ensures [decodes-what-was-encoded] rlen[valof(r)] - old(rpos[valof(r)]) >= 12 && be32(rdata[valof(r)], old(rpos[valof(r)])) == 8 ==> isnil(result1)
+// a handle of another (legal) size is skipped whole, including its XDR padding, so the stream stays in step
+//@ ensures [wrong-size-skipped-padded] rlen[valof(r)] - old(rpos[valof(r)]) >= 4 && be32(rdata[valof(r)], old(rpos[valof(r)])) >= 1 && be32(rdata[valof(r)], old(rpos[valof(r)])) <= 64 && be32(rdata[valof(r)], old(rpos[valof(r)])) != 8 && rlen[valof(r)] - old(rpos[valof(r)]) >= 4 + (be32(rdata[valof(r)], old(rpos[valof(r)])) + 3) / 4 * 4 ==> !isnil(result1) && rpos[valof(r)] == old(rpos[valof(r)]) + 4 + (be32(rdata[valof(r)], old(rpos[valof(r)])) + 3) / 4 * 4
 
 //@ func xdrDecodeString
 //@ prop C13 C07 C15
